@@ -809,7 +809,8 @@ def run_prog(case, observe_all=False):
       elif k == 'merge_states':     # one call on the AggregateFn API; the model sees it as a left fold
         ids = op['accs']
         if fn:
-          accs[ids[0]] = fn.merge_states([accs[i] for i in ids])
+          from harness.lib_states import pack   # case['container']: list (default) / tuple / generator / ... (SC11)
+          accs[ids[0]] = fn.merge_states(pack([accs[i] for i in ids], case.get('container')))
         else:
           for i in ids[1:]:
             accs[ids[0]].merge(accs[i])
